@@ -3,6 +3,7 @@ package props
 // C01 — the JSON encoder always emits one well-formed JSON object per entry, on one line.
 
 import (
+	"strings"
 	"bytes"
 	"fmt"
 	"sync"
@@ -129,11 +130,18 @@ func (c *c01Case) render() string {
 	return s + " fields[" + renderSpecs(c.site) + "]"
 }
 
-var c01Opts = specOpts{faults: true, stack: true, viaAny: true}
+var c01Opts = specOpts{faults: true, stack: true, viaAny: true, panics: true}
 
 func propC01Encode(t *rapid.T) {
 	c := genC01Case(t, cfgOpts{}, c01Opts, 3)
 	out, err, p := c.encodeDirect()
+	panicky := hasPanicMarshaler(append([][]*Spec{c.site}, c.ctx...)...)
+	if p != nil && panicky && strings.Contains(fmt.Sprint(p), specPanicPrefix) {
+		// a panic in user marshaling code may reach the caller: then nothing was emitted and there is nothing to
+		// check. If it is swallowed instead, whatever IS emitted must still be one well-formed line (checked below).
+		statCase("C01", true, "enc|panicking marshaler propagated", "panicking user marshaler")
+		return
+	}
 	if p != nil {
 		t.Fatalf("EncodeEntry panicked: %v\ncase: %s", p, c.render())
 	}
